@@ -102,7 +102,7 @@ def selftest(drv):
     c = _first(t, lambda r: len(r["events"]) >= 20)
     k = copy.deepcopy(c); del k["events"][10]
     experiment("plan: one hook Iterate event dropped", "Trace_Planner", c, k)
-    k = copy.deepcopy(c); k["events"][10]["alive"].append(k["events"][10]["alive"][0])
+    k = copy.deepcopy(c); k["events"][10]["alive"].append(k["events"][10]["alive"][0]); k["events"][10]["aliveCount"] += 1
     experiment("plan: duplicate (start,current) pair", "Trace_Planner", c, k)
     t = os.path.join(work, "plan18.ndjson")
     drv.generate(b, "plan", t, "quick", 1, "C18")
